@@ -27,9 +27,23 @@ type WPrefixedPrev struct {
 	Inner WInner `sql:"embedded_prefix:in_"`
 }
 
+// seeded change C06-c: the default index name inside a prefixed embedded struct carries the prefix once
+type WEmbIdxInner struct {
+	Code string `sql:"index_type:hash"`
+	Zone string `sql:"index"`
+}
+
+type WEmbIdx struct {
+	ID    int          `sql:"primary_key"`
+	Audit WEmbIdxInner `sql:"embedded_prefix:audit_"`
+}
+
 var my = structCfg{dialect: "mysql", tagKey: "sql"}
 
 var witnessCases = []structCase{
+	{id: "wst-index-in-prefixed-embedded", cfg: my, obj: WEmbIdx{},
+		decl:   `(decl "WEmbIdx" "" ((field "ID" int "int" "primary_key") (field "Audit" (struct ((field "Code" string "string" "index_type:hash") (field "Zone" string "string" "index"))) "WEmbIdxInner" "embedded_prefix:audit_")))`,
+		expect: `(expect "w_emb_idx" ((col "id" "INT" ("pk") true) (col "audit_code" "TEXT" () false) (col "audit_zone" "TEXT" () false)) ((idx "idx_audit_code" ("audit_code") false "HASH") (idx "idx_audit_zone" ("audit_zone") false "")) () ())`},
 	{id: "wst-previous-with-index", cfg: my, obj: WPrevIdx{},
 		decl:   `(decl "WPrevIdx" "" ((field "ID" int "int" "primary_key") (field "Email" string "string" "column:c_email,previous:old_email;index:ix_email")))`,
 		expect: `(expect "w_prev_idx" ((col "id" "INT" ("pk") true) (col "c_email" "TEXT" () false)) ((idx "ix_email" ("c_email") false "")) (("old_email" "c_email")))`},
